@@ -93,7 +93,7 @@ def _run_chunk(args):
     prop, chunk, opts = args
     units = [('c%d' % i, unit_src(case, 'c%d' % i)) for i, case in enumerate(chunk)]
     outs = run_units(units, prelude=opts.get('prelude', ()), limits=opts.get('limits'), perms=opts.get('perms'),
-                     dump=opts.get('dump'), now=opts.get('now'), timeout=opts.get('timeout', 120.0))
+                     dump=opts.get('dump'), now=opts.get('now'), timeout=opts.get('timeout', 15.0))
     res = []
     for i, (case, out) in enumerate(zip(chunk, outs)):
         ok, why = judge(case['exp'], out)
